@@ -46,3 +46,35 @@ package directory
 //@ func (*directory._UnixFSBasicDir).Lookup
 //@ prop C15
 //@ at call utils.Lookup#1 assert scans-its-own-links-for-this-key: callee_key == key.x && callee_links.x == n._substrate.Links.x
+
+// C02 / C15: the reported length is the number of links, and the link iterator behind MapIterator()
+// and Iterator() starts at the first of the node's own links, steps over exactly one link per call,
+// yields that link with its position, and is done exactly when every link was stepped over -- so
+// iteration yields exactly Length() pairs and is then done, whatever the links' names are.
+//@ func (*directory._UnixFSBasicDir).Length
+//@ prop C02 C15
+//@ ensures length-is-the-number-of-links: result == len(n._substrate.Links.x)
+//@ assigns nothing
+
+//@ func (*directory._UnixFSBasicDir__ListItr).Next
+//@ prop C02 C15
+//@ ensures never-fails: result2 == nil
+//@ ensures steps-over-exactly-one-link: old(itr._substrate.idx) < len(itr._substrate.n.x) ==> itr._substrate.idx == old(itr._substrate.idx) + 1 && result0 == old(itr._substrate.idx) && result1 != nil
+//@ ensures yields-the-link-at-its-position: old(itr._substrate.idx) < len(itr._substrate.n.x) ==> result1.Hash.x == itr._substrate.n.x[old(itr._substrate.idx)].Hash.x && result1.Name.m == itr._substrate.n.x[old(itr._substrate.idx)].Name.m && result1.Name.v.x == itr._substrate.n.x[old(itr._substrate.idx)].Name.v.x
+//@ ensures past-the-end-nothing-is-yielded: old(itr._substrate.idx) >= len(itr._substrate.n.x) ==> itr._substrate.idx == old(itr._substrate.idx) && result0 == -1 && result1 == nil
+//@ ensures walks-the-same-list: itr._substrate == old(itr._substrate) && itr._substrate.n == old(itr._substrate.n)
+
+//@ func (*directory._UnixFSBasicDir__ListItr).Done
+//@ prop C02 C15
+//@ ensures done-exactly-when-every-link-was-stepped-over: result <==> itr._substrate.idx >= len(itr._substrate.n.x)
+//@ assigns nothing
+
+//@ func (*directory._UnixFSBasicDir).MapIterator
+//@ prop C02 C15
+//@ ensures starts-at-the-first-of-its-own-links: result != nil && typeis(result, "*iter.UnixFSDir__MapItr") && typeis(result.(*iter.UnixFSDir__MapItr)._substrate, "*directory._UnixFSBasicDir__ListItr") && result.(*iter.UnixFSDir__MapItr)._substrate.(*directory._UnixFSBasicDir__ListItr)._substrate.idx == 0 && result.(*iter.UnixFSDir__MapItr)._substrate.(*directory._UnixFSBasicDir__ListItr)._substrate.n == addrof(n._substrate.Links)
+//@ ensures names-are-yielded-as-they-are: result.(*iter.UnixFSDir__MapItr).transformName == nil
+
+//@ func (*directory._UnixFSBasicDir).Iterator
+//@ prop C02 C15
+//@ ensures starts-at-the-first-of-its-own-links: result != nil && typeis(result._substrate, "*directory._UnixFSBasicDir__ListItr") && result._substrate.(*directory._UnixFSBasicDir__ListItr)._substrate.idx == 0 && result._substrate.(*directory._UnixFSBasicDir__ListItr)._substrate.n == addrof(n._substrate.Links)
+//@ ensures names-are-yielded-as-they-are: result.transformName == nil
